@@ -622,3 +622,10 @@ func termPos(b *ssa.BasicBlock) token.Pos {
 	}
 	return token.NoPos
 }
+
+func (t token_) tok() token.Token {
+	if t == tokLSS {
+		return token.LSS
+	}
+	return token.GTR
+}
